@@ -144,6 +144,7 @@ func CallsDeep(in ssa.Instruction, pred func(ssa.CallInstruction) bool) bool {
 		lits = append(lits, mc.Fn.(*ssa.Function))
 	}
 	for _, a := range c.Common().Args {
+		a = Unwrap(a)
 		if mc, ok := a.(*ssa.MakeClosure); ok {
 			lits = append(lits, mc.Fn.(*ssa.Function))
 		}
